@@ -301,6 +301,25 @@ func (tm *TypeMap) HeapSort(leafType types.Type) Sort {
 }
 
 func elemsKey(es Sort) string { return "Elems$" + sortId(es) }
+
+// ElemsKey: the element heap of slices with element type et. Reference-sorted elements (pointers, maps, channels)
+// get one heap per Go element type: Go's type system keeps a []*Node and a []*Edge from ever sharing a backing array,
+// so a write to one cannot be seen through the other.
+func (tm *TypeMap) ElemsKey(et types.Type) string {
+	es := tm.SortOf(et)
+	if es != SRef {
+		return elemsKey(es)
+	}
+	rt := types.Unalias(tm.resolve(et))
+	name := ""
+	switch u := rt.Underlying().(type) {
+	case *types.Pointer:
+		name = "P_" + typeName(u.Elem())
+	default:
+		name = sanitize(types.TypeString(rt, func(p *types.Package) string { return pkgShort(p.Path()) }))
+	}
+	return "Elems$Ref$" + sanitize(name)
+}
 func elemsSort(es Sort) Sort  { return ArrSort(SInt, ArrSort(SInt, es)) }
 
 func mapValKey(k, v Sort) string { return "MapVal$" + sortId(k) + "$" + sortId(v) }
